@@ -31,6 +31,8 @@ var (
 	OnceFunc = sync.OnceFunc
 )
 
+// (sync.OnceValue/OnceValues are generic; the library's go.mod language version, go1.14, cannot call them.)
+
 // Controller decides pool answers and receives scheduling points.
 type Controller interface {
 	// Choose is called with the number of pooled objects n (>=0) and returns
@@ -72,7 +74,7 @@ type Pool struct {
 	free []interface{} // controlled mode: index 0 = most recently put
 }
 
-// All pools ever used in controlled mode (there is exactly one in rfmt).
+// All pools ever used in controlled mode (one in rfmt on the pinned tree; a change may add more).
 var (
 	poolsMu sync.Mutex
 	pools   []*Pool
@@ -110,17 +112,6 @@ func Clear() {
 	for _, p := range pools {
 		p.mu.Lock()
 		p.free = nil
-		p.mu.Unlock()
-	}
-}
-
-// SetContents replaces the controlled free list of the (single) registered pool.
-func SetContents(xs []interface{}) {
-	poolsMu.Lock()
-	defer poolsMu.Unlock()
-	for _, p := range pools {
-		p.mu.Lock()
-		p.free = append([]interface{}(nil), xs...)
 		p.mu.Unlock()
 	}
 }
